@@ -406,7 +406,101 @@ func main() {
 	if topRange == "" {
 		xlib.Unreadable("no top-level loop in Check")
 	}
+	// what persists between two Check() calls: a set that is a fresh local map of Check does not; a set that is (an alias
+	// of) a field of the detector does
+	recvName := ""
+	if fn.Recv != nil && len(fn.Recv.List) == 1 && len(fn.Recv.List[0].Names) == 1 {
+		recvName = fn.Recv.List[0].Names[0].Name
+	}
+	freshMap := func(e ast.Expr) bool {
+		switch v := e.(type) {
+		case *ast.CompositeLit:
+			_, isMap := v.Type.(*ast.MapType)
+			return isMap && len(v.Elts) == 0
+		case *ast.CallExpr:
+			if ident(v.Fun) == "make" && len(v.Args) >= 1 {
+				_, isMap := v.Args[0].(*ast.MapType)
+				return isMap
+			}
+		}
+		return false
+	}
+	persists := func(name string) bool {
+		if name == "" {
+			return true
+		}
+		defined := false
+		fresh := true
+		for _, st := range fn.Body.List {
+			switch as := st.(type) {
+			case *ast.AssignStmt:
+				for i, l := range as.Lhs {
+					if ident(l) == name && i < len(as.Rhs) {
+						defined = true
+						if !freshMap(as.Rhs[i]) {
+							fresh = false
+						}
+					}
+				}
+			case *ast.DeclStmt:
+				if gd, ok := as.Decl.(*ast.GenDecl); ok {
+					for _, sp := range gd.Specs {
+						if vs, ok := sp.(*ast.ValueSpec); ok {
+							for i, n := range vs.Names {
+								if n.Name == name {
+									defined = true
+									if i >= len(vs.Values) || !freshMap(vs.Values[i]) {
+										fresh = false
+									}
+								}
+							}
+						}
+					}
+				}
+			}
+		}
+		return !defined || !fresh
+	}
+	var writes []string
+	ast.Inspect(fn.Body, func(n ast.Node) bool {
+		if as, ok := n.(*ast.AssignStmt); ok {
+			for _, l := range as.Lhs {
+				if sel, ok := l.(*ast.SelectorExpr); ok && ident(sel.X) == recvName && recvName != "" {
+					writes = append(writes, sel.Sel.Name)
+				}
+			}
+		}
+		return true
+	})
+	var mapFields []string
+	for _, d := range f.AST.Decls {
+		gd, ok := d.(*ast.GenDecl)
+		if !ok || gd.Tok != token.TYPE {
+			continue
+		}
+		for _, sp := range gd.Specs {
+			ts, ok := sp.(*ast.TypeSpec)
+			if !ok || ts.Name.Name != "cycleDetector" {
+				continue
+			}
+			if stt, ok := ts.Type.(*ast.StructType); ok {
+				for _, fl := range stt.Fields.List {
+					switch fl.Type.(type) {
+					case *ast.MapType, *ast.ArrayType:
+						for _, nm := range fl.Names {
+							mapFields = append(mapFields, nm.Name)
+						}
+					}
+				}
+			}
+		}
+	}
+
 	out := xlib.NewOut("C06", f.Path)
+	out.Def("persistPre", "Bool", xlib.LeanBool(persists(pre)))
+	out.Def("persistPost", "Bool", xlib.LeanBool(persists(post)))
+	out.Def("detectorCollectionFields", "List String", xlib.LeanStrList(mapFields))
+	out.Def("checkWritesFields", "List String", xlib.LeanStrList(writes))
 	out.Def("guards", "List String", xlib.LeanStrList(guards))
 	out.Def("completeFirst", "Bool", xlib.LeanBool(completeFirst))
 	out.Def("preLoop", "List String", xlib.LeanStrList(mapRoles(x.preLoop)))
